@@ -305,3 +305,58 @@ pub fn drop_check(input: &[u8]) -> CaseResult {
 }
 
 pub fn type_of_name(t: Type) -> &'static str { match t { Type::Unknown(_) => "unknown", _ => "known" } }
+
+// ---- parent / child supervision --------------------------------------------------------------------
+
+/// Run `child_main` in a child process (same executable, env G_TOTAL_CHILD=1). An oversize allocation or a
+/// fatal signal in the child is reported with the case that was running; the parent writes a replay file
+/// for sub-check `replay_sub` (tape = 00 + input), re-runs exactly that case in a fresh child and prints a
+/// VIOLATION line only if the abnormal exit reproduces. Anything else abnormal is exit 2 (inconclusive).
+pub fn supervise<F: FnOnce()>(replay_sub: &str, child_main: F) -> ! {
+    if std::env::var("G_TOTAL_CHILD").is_ok() {
+        install_signal_handlers();
+        child_main();
+        std::process::exit(0)
+    }
+    let args: Vec<String> = std::env::args().collect();
+    let exe = std::env::current_exe().expect("current_exe");
+    let out = std::process::Command::new(&exe).args(&args[1 ..]).env("G_TOTAL_CHILD", "1").stderr(std::process::Stdio::piped()).spawn().and_then(|c| c.wait_with_output());
+    let out = match out { Ok(o) => o, Err(e) => { eprintln!("cannot run child: {}", e); std::process::exit(2) } };
+    let err = String::from_utf8_lossy(&out.stderr);
+    eprint!("{}", err);
+    let prop = args.get(1).cloned().unwrap_or_default();
+    match out.status.code() {
+        Some(code @ (98 | 99)) => {
+            let marker = if code == 99 { "VERIF-OVERSIZE" } else { "VERIF-CRASH" };
+            let kind = if code == 99 { "oversize" } else { "crash" };
+            let what = if code == 99 { "allocation request above 64 MiB" } else { "fatal signal (memory corruption)" };
+            if let Some(line) = err.lines().find(|l| l.starts_with(marker)) {
+                let root = vcore::engine::verif_root();
+                let dir = root.join("replays");
+                let _ = std::fs::create_dir_all(&dir);
+                let case = line.split("case=").nth(1).unwrap_or("").trim().to_string();
+                let entry = line.split("entry=").nth(1).and_then(|s| s.split(" case=").next()).unwrap_or("?").to_string();
+                let p = dir.join(format!("{}-{}-{:016x}.json", prop, kind, vcore::engine::hash_of(&line)));
+                let body = format!("{{\n \"property\": \"{}\",\n \"sub\": \"{}\",\n \"entry\": \"{}\",\n \"tape\": \"00{}\",\n \"signature\": \"{}\",\n \"observed\": \"{}\"\n}}\n", prop, replay_sub, entry.replace('"', "'"), case, kind, line.replace('"', "'"));
+                let _ = std::fs::write(&p, body);
+                if args.iter().any(|a| a == "--replay") {
+                    println!("  [{}] {}: {} while handling {}", kind, entry, what, case);
+                    println!("VIOLATION property={} replay={}", prop, p.display());
+                    std::process::exit(1)
+                }
+                let again = std::process::Command::new(&exe).arg(&prop).arg("quick").arg("--replay").arg(&p).env("G_TOTAL_CHILD", "1").stderr(std::process::Stdio::piped()).output();
+                match again.ok().and_then(|o| o.status.code()) {
+                    Some(98) | Some(99) | Some(1) => {
+                        println!("  [{}] {}: {} while handling {} (reproduced in a fresh process)", kind, entry, what, case);
+                        println!("VIOLATION property={} replay={}", prop, p.display());
+                        std::process::exit(1)
+                    }
+                    other => { eprintln!("abnormal child exit did not reproduce on the recorded case (second run: {:?}): inconclusive", other); std::process::exit(2) }
+                }
+            }
+            std::process::exit(2)
+        }
+        Some(c) => std::process::exit(c),
+        None => { eprintln!("child killed by a signal: inconclusive"); std::process::exit(2) }
+    }
+}
